@@ -70,10 +70,20 @@ func insertRacePoints(fset *token.FileSet, f *ast.File, lines []int) int {
 			}
 		}
 	}
+	// the body block of a switch / select holds clauses, not statements
+	clauseBlocks := map[*ast.BlockStmt]bool{}
 	ast.Inspect(f, func(n ast.Node) bool {
 		switch x := n.(type) {
+		case *ast.SwitchStmt:
+			clauseBlocks[x.Body] = true
+		case *ast.TypeSwitchStmt:
+			clauseBlocks[x.Body] = true
+		case *ast.SelectStmt:
+			clauseBlocks[x.Body] = true
 		case *ast.BlockStmt:
-			consider(&x.List)
+			if !clauseBlocks[x] {
+				consider(&x.List)
+			}
 		case *ast.CaseClause:
 			consider(&x.Body)
 		case *ast.CommClause:
